@@ -136,6 +136,12 @@ class Bridge:
         C = self.real_class(obj.cls)
         kwargs = {}
         for name, ins in self.params(obj.cls):
+            if ins.kind == "field" and ins.value is not None and ins.optional and self.decoy_hardcoded and len(name) % 2 == 0:
+                # ... and when it is optional as well it may simply be left out (or given as None): the object carries
+                # the value of the specification all the same
+                if len(name) % 4 == 0:
+                    kwargs[name] = None
+                continue
             if ins.kind == "field" and ins.value is not None and self.decoy_hardcoded:
                 # a named field with a hard-coded value is still a constructor parameter; whatever the caller
                 # passes there, the object carries (and writes) the value of the specification
